@@ -15,7 +15,7 @@
 //   after request   full_close | full_rst | silence
 //   response cut    resp_close[:cl|chunked]@pos | resp_rst..@pos | resp_silence..@pos   (first n response bytes, then ..)
 //   malformed       bad:<cl_te|cl_conflict|cl_nonnum|obsfold|badversion|badstatus|nocolon|chunk_size|chunk_crlf>
-//   success         ok[:cl|chunked] | ok_connclose | ok_surplus[:cl|chunked] | ok_closedelim | ok_http10 | ok_http10_ka |
+//   success         ok[:cl|chunked] | ok_connclose[:mixed|list] | ok_surplus[:cl|chunked] | ok_closedelim | ok_http10 | ok_http10_ka |
 //                   ok_then_fin | ok_1xx | ok_500 | ok_204 | ok_split[:cl|chunked]@pos
 //   pos = a class (request: peek first line hdr last; response: status hdr hdrend body last) or #<byte offset>
 // A step "stale" is a marker of the model (an attempt the server cannot see); the driver skips it.
@@ -309,7 +309,8 @@ static Built buildResponse(const std::string &kind, const std::string &variantIn
     body = "";
   }
   h.push_back("Content-Type: text/plain");
-  if (kind == "ok_connclose") h.push_back("Connection: close");
+  if (kind == "ok_connclose")
+    h.push_back(variantIn == "mixed" ? "connection: Close" : variantIn == "list" ? "Connection: keep-alive, close" : "Connection: close");
   if (kind == "ok_http10_ka") h.push_back("Connection: keep-alive");
   std::string wireBody;
   if (kind == "ok_closedelim")
